@@ -60,6 +60,12 @@ def run_scripts(chk, scripts, label, monitor="TraceDelivery", env=None):
     """Execute scripts on real sockets and validate the trace. Returns list of (scen, code, line)."""
     inp = os.path.join(chk.wd, "%s.in" % label)
     out = os.path.join(chk.wd, "%s.trace" % label)
+    # every third scenario runs over pipes with hostile-but-legal readiness (a poll may answer Pending after waking its own
+    # waker; a waker registered earlier may be woken again later): observable behaviour must not depend on it
+    if os.environ.get("VERIF_NO_JITTER") != "1":
+        for s in scripts:
+            if "jitter" not in s and isinstance(s.get("scen"), int) and s["scen"] % 3 == 1 and not s.get("nojitter"):
+                s["jitter"] = 1 + (s["scen"] * 2654435761 + chk.seed) % (1 << 31)
     # the engine process may die (abort / stack overflow in the code under test) or be blocked for good (exit 3 from its watchdog):
     # both are data, attributed to the scenario that was running; the remaining scenarios are run in a fresh process
     todo, part, dt, k = list(scripts), 0, 0.0, 0
@@ -81,6 +87,10 @@ def run_scripts(chk, scripts, label, monitor="TraceDelivery", env=None):
             todo = todo[ndone + 1:]
             if len(hangs) > 20:
                 break
+    # the driver could not do what a script asked for: that is a defect of the script generator or the driver, never a verdict
+    herr = [l for l in open(out) if '"ev":"harness_error"' in l]
+    if herr:
+        raise vlib.ToolError("%s: %d harness_error event(s) in the trace, e.g. %s" % (label, len(herr), herr[0][:300]))
     for bad, kind, tail in hangs:
         chk.violation("%s/process-%s" % (chk.pid, kind), {"what": "the process running the scenarios %s while executing this scenario" % ("blocked for good (no progress for 15 s)" if kind == "hang" else "died"),
                                                           "sock": bad.get("sock"), "scenario": bad.get("scen"), "tail": tail}, {"kind": "engine", "script": bad, "monitor": monitor})
